@@ -126,6 +126,11 @@ def isinstance_model(x, v, cls, p, site):
         yield p, Bool(False); return              # a str/int/bool is never an instance of a library class
     if v.sort == 'none':
         yield p, Bool(False); return
+    if v.sort == 'rec' and v.x.get('_kind') is not None and v.x['_kind'].x == 'datetime':
+        # a datetime record: the STIXdatetime variant is the one carrying the precision attributes (timelib.mk_datetime(with_precision=True))
+        if cls in ('STIXdatetime', 'stix2.utils.STIXdatetime', 'utils.STIXdatetime'): yield p, Bool('precision' in v.x); return
+        if cls in ('dt.datetime', 'datetime', 'datetime.datetime', 'dt.date', 'date', 'datetime.date', '(dt.date, dt.datetime)', '(dt.datetime, dt.date)'): yield p, Bool(True); return
+        if cls in PRIM or cls in JSON_CLASSES: yield p, Bool(False); return
     if v.sort == 'opaque':
         q = p.inexact(); yield q, Bool(z3.FreshConst(z3.BoolSort(), 'isinst')); return
     raise Unsupported(site + f' isinstance({v.sort}, {cls})')
